@@ -165,6 +165,20 @@ def jobs_c05(tier, seed):
     return jobs
 
 
+def jobs_c08(tier, seed):
+    f = ["c08"]
+    names = [
+        ("never_two_ops", "AutoStream::never: any two operations from {write, write_all, write_vectored, write_fmt, flush} with symbolic <=2-byte payloads vs StripStream"),
+        ("new_never_two_ops", "AutoStream::new(.., Never): same"),
+        ("always_ansi_two_ops", "AutoStream::always_ansi: any two operations, bytes forwarded unchanged"),
+        ("always_two_ops", "AutoStream::always (non-Windows): same"),
+        ("new_always_ansi_two_ops", "AutoStream::new(.., AlwaysAnsi): same"),
+        ("new_always_two_ops", "AutoStream::new(.., Always): same"),
+        ("vec_into_inner", "owned Vec<u8>: into_inner returns all bytes delivered (2-byte write_all, both modes)"),
+    ]
+    return [J(f"c08::{n}", features=f, timeout_s=2400, mem_gb=16, bound=b) for n, b in names]
+
+
 def jobs_c09(tier, seed):
     f = ["c09"]
     jobs = [
@@ -187,6 +201,62 @@ C07_THOROUGH = ["csi_k5_s6", "csi_k5_s3", "csi_k5_s12", "csi_k5_s1", "csi_k6_s0"
                 "csi_k6_s27", "csi_k6_s1", "csi_k7_s0", "csi_k8_s0"]
 
 
+def jobs_c06(tier, seed):
+    f = ["c06"]
+    jobs = [
+        J("c06::write_1", features=f, timeout_s=1200, bound="one write() of a 1-byte buffer from any state reachable by a 2-byte prefix; script: 4 accept sizes (any), one error of any kind at any inner call"),
+        J("c06::write_2", features=f, timeout_s=1800, mem_gb=16, bound="one write() of a 2-byte buffer, same script space"),
+        J("c06::write_all_2", features=f, timeout_s=1800, mem_gb=16, bound="one write_all() of a 2-byte buffer from any carried state; error of any kind at any inner call"),
+        J("c06::write_fmt_2", features=f, timeout_s=1800, mem_gb=16, bound="write_fmt of two 1-byte ASCII fragments; error at any inner call"),
+        J("c06::write_vectored_2", features=f, timeout_s=1800, mem_gb=16, bound="write_vectored of (<=1 byte, 2 bytes); any accept sizes"),
+    ]
+    if tier == "thorough":
+        jobs.append(J("c06::write_3", features=f, timeout_s=3 * 3600, mem_gb=24, optional=True, bound="one write() of a 3-byte buffer, same script space"))
+    return jobs
+
+
+def jobs_c18(tier, seed):
+    f = ["c18"]
+    return [
+        J("console::harness::cap_color_complete", crate="wincon", features=f, timeout_s=600, bound="cap_wincon_color: every colour (complete)"),
+        J("console::harness::write_all_runs_once_in_order", crate="wincon", features=f, timeout_s=3600, mem_gb=24,
+          bound="write_all over 'c ESC[3d;4em c c' (text, colour digits symbolic) split at any of the 12 positions into two calls; console script: <=6 calls, any accept sizes, one error (WouldBlock/Other) at any call"),
+        J("console::harness::write_reports_consumed_only_if_handed_over", crate="wincon", features=f, timeout_s=3600, mem_gb=24,
+          bound="write() over the same skeleton; any accept sizes, one error at any of the first 3 console calls"),
+    ]
+
+
+C20_CONFIGS = [
+    ("default", ["fx_utf8"]),
+    ("core", ["fx_core"]),
+    ("core_utf8", ["fx_core", "fx_utf8"]),
+    ("none", []),
+]
+
+
+def jobs_c20(tier, seed):
+    jobs = []
+    common = ["c02::run_from_new_2", "c02::run_from_new_3", "c02::step_ground", "c02::step_escape", "c02::step_csi_param_2",
+              "c02::step_dcs_passthrough", "c02::step_osc_0", "c02::step_osc_2", "c02::step_osc_16"]
+    boundary = ["c20::osc_boundary_1023", "c20::osc_boundary_1024", "c20::osc_boundary_1024_cut"]
+    if tier == "thorough":
+        common += ["c02::transition_table", "c02::run_from_new_4", "c02::step_csi_param_32", "c02::step_csi_intermediate", "c02::step_dcs_param", "c02::step_osc_15", "c02::step_sos", "c02::step_csi_entry"]
+        boundary += ["c20::osc_boundary_1022", "c20::osc_boundary_1023_cut"]
+    for cfg, feats in C20_CONFIGS:
+        f = ["c20", "seven_bit"] + feats
+        for h in common:
+            j = J(h, crate="parse", features=f, timeout_s=1800 if "new_4" not in h else 3600, mem_gb=16,
+                  bound=f"[{cfg}] 7-bit input, same reference model as every other configuration: {h}")
+            j.label = f"{cfg}:{h}"
+            jobs.append(j)
+        for h in boundary:
+            j = J(h, crate="parse", features=f, timeout_s=1800, mem_gb=16,
+                  bound=f"[{cfg}] OSC payload at the fixed buffer's limit: two arbitrary 7-bit bytes, terminator, then a CSI sequence")
+            j.label = f"{cfg}:{h}"
+            jobs.append(j)
+    return jobs
+
+
 def jobs_c07(tier, seed):
     f = ["c07"]
 
@@ -207,6 +277,59 @@ def jobs_c07(tier, seed):
     jobs.append(J("c07::harness::combined_equals_separate_2", features=f, timeout_s=1200, bound="a;b vs a then b: all pairs of single-parameter codes (free u16 x free u16), any prior style"))
     jobs.append(J("c07::harness::non_sgr_changes_nothing", features=f, timeout_s=1200, bound="any final byte other than m, or ignore flag set; ESC/OSC/DCS callbacks; any prior style"))
     return jobs
+
+
+def jobs_c10(tier, seed):
+    f = ["c10"]
+    return [
+        J("c10::palette_scan_lowest_minimum", features=f, stubbing=True, replay="none", timeout_s=1800, mem_gb=16,
+          bound="K2: Palette::find_match with the distance function replaced by an ARBITRARY table: any query colour, any palette of 16 tagged entries incl. duplicates, any table (every weak order of the candidates) -> lowest index of minimal distance"),
+        J("c10::xterm_scan_lowest_minimum", features=f, stubbing=True, replay="none", timeout_s=3600, mem_gb=24,
+          bound="K2: find_xterm_match over the 240 fixed colours with an ARBITRARY distance table (u8 per candidate); every candidate checked against the reference xterm generator; all 240 examined; lowest index of minimal distance"),
+        J("c10::direct_conversions", features=f, timeout_s=1200,
+          bound="K3: identities, 16-colour <-> indices 0..=15, palette look-ups, xterm_to_rgb == reference cube/grey generator: any colour, any index, any palette (complete)"),
+        J("c10::xterm_to_ansi_goes_through_rgb", features=f, stubbing=True, replay="none", timeout_s=1800, mem_gb=16,
+          bound="K3: xterm_to_ansi(i >= 16) is the palette scan of the reference RGB value of i, any table"),
+    ]
+
+
+def post_c10(prop, tier, seed, out):
+    """K1: the distance kernel, decided by SMT solvers on an encoding generated from MIR."""
+    import importlib.util
+
+    spec = importlib.util.spec_from_file_location("mir2smt", str(runner.VERIF / "mir2smt" / "mir2smt.py"))
+    m = importlib.util.module_from_spec(spec)
+    spec.loader.exec_module(m)
+    work = runner.workdir(prop) / "k1"
+    try:
+        rep = m.main(str(work / "k1.json"), str(work), seed)
+    except Exception as e:  # translator does not understand the MIR any more, build failure, ...
+        out.inconclusive.append(f"K1 (MIR->SMT): {type(e).__name__}: {e}")
+        return
+    tv = rep["translator_validation"]
+    if tv["mismatches"]:
+        out.inconclusive.append(f"K1: the MIR->SMT encoding disagrees with the real function on concrete inputs: {tv['mismatches'][:2]}")
+    for ob in rep["obligations"]:
+        out.extra_queries += 1
+        out.extra_solver_s += sum(v["seconds"] for v in ob["solvers"].values())
+        out.extra_samples.append({"query": "K1/" + ob["id"], "what": ob["what"], "status": ob["status"],
+                                  "solvers": {k: [v["verdict"], v["seconds"]] for k, v in ob["solvers"].items()},
+                                  "bound": "all 2^48 pairs of RGB colours (no bound)", "witness": ob.get("witness")})
+        if ob["status"] == "holds":
+            out.queries_ok += 1
+        elif ob["status"] == "violated":
+            d = REPLAY_DIR / prop
+            d.mkdir(parents=True, exist_ok=True)
+            pth = d / f"k1_{ob['id']}.json"
+            pth.write_text(json.dumps({"property": prop, "kind": "k1", "obligation": ob["id"], "what": ob["what"], "why": ob.get("why"), "witness": ob.get("witness")}, indent=1))
+            runner.log(f"  K1 {ob['id']} violated on the real function: {ob.get('why')} witness={ob.get('witness')}")
+            out.violations.append(str(pth))
+        else:
+            out.inconclusive.append(f"K1 {ob['id']}: {ob.get('why', ob['status'])}")
+    out.extra_samples.append({"query": "K1/translator-validation", "pairs_through_real_function_and_encoding": tv["pairs"], "mismatches": len(tv["mismatches"])})
+    out.extra_nontrivial += 2  # the encoding is exercised on all-corner and random pairs; both classes present
+    runner.log(f"  K1: {sum(1 for o in rep['obligations'] if o['status'] == 'holds')}/{len(rep['obligations'])} obligations hold, "
+               f"{tv['pairs']} concrete pairs validated, {rep['wall_s']}s")
 
 
 def jobs_c12(tier, seed):
@@ -259,6 +382,14 @@ REGISTRY = {
         "trusted": ["Kani 0.68 MIR->goto", "CBMC 6.11 + CaDiCaL", "reference tables harness/adapters/src/reference.rs (each library's documented meaning of its variants)"],
         "assumptions": ["the target value 'denotes the same SGR attribute' as read from each library's documentation; tables cross-checked natively by rendering with the library and interpreting with vmodels::sgr"],
     },
+    "C08": {
+        "jobs": jobs_c08,
+        "level": "model_checking",
+        "functions": ["anstream::AutoStream::{new, never, always, always_ansi, into_inner, current_choice} and its io::Write impl over &mut dyn Write and Vec<u8>", "anstream::StripStream (oracle for Never)"],
+        "bounds": {"quick": "every sequence of 2 write-family operations (kind symbolic among write/write_all/write_vectored/write_fmt/flush) with symbolic payloads of <=2 bytes (+1 byte second slice / fragment)", "thorough": "same"},
+        "outside": "longer operation sequences and payloads; files and boxed writers (same generic code); ColorChoice::Auto is C09; Windows arms",
+        "assumptions": ["Never is compared with a StripStream fed the same operations (C01/C06 tie the strip stream to the model)"],
+    },
     "C09": {
         "jobs": jobs_c09,
         "level": "proof",
@@ -268,6 +399,30 @@ REGISTRY = {
         "trusted": ["Kani 0.68 stubbing (-Z stubbing)", "CBMC 6.11 + CaDiCaL", "OsString/OsStr comparison as compiled by Kani"],
         "assumptions": ["STUB: std::env::var_os returns the value selected by a free selector per variable", "STUB: <Stdout as is_terminal_polyfill::IsTerminal>::is_terminal returns a free bool"],
     },
+    "C06": {
+        "jobs": jobs_c06,
+        "level": "model_checking",
+        "functions": ["anstream::strip::{write, write_all, write_fmt, offset_to} behind StripStream::<&mut dyn Write>::{write, write_vectored, write_all, write_fmt}", "anstream::fmt::Adapter::{write_fmt, write_str}", "anstream::adapter::StripBytes::strip_next"],
+        "bounds": {"quick": "single-call lemma from any state reachable by a 2-byte prefix: buffers <=2 bytes (all values), scripts of <=4 inner calls with arbitrary accept sizes and <=1 injected error of kind Interrupted/WouldBlock/Other", "thorough": "buffers <=3 bytes"},
+        "outside": "longer buffers within one call; more than one injected error per call; the protocol over several calls follows by induction from the lemma's state clause (not unrolled)",
+        "assumptions": ["the reference for 'stripped form' is an independent copy of StripBytes run on the consumed prefix (C01 ties StripBytes to the model)", "hook StripStream::verif_state observes the carried state", "inputs of the recorded C01 finding class (control byte inside broken UTF-8) are excluded while that finding is open"],
+    },
+    "C18": {
+        "jobs": jobs_c18,
+        "level": "model_checking",
+        "functions": ["anstream/src/wincon.rs include!d from the working tree: write, write_all, write_fmt, cap_wincon_color, impl Write for WinconStream<S> (compiled, not driven)", "anstream::adapter::WinconBytes::extract_next (parser + styled-run capture)", "anstream/src/fmt.rs Adapter"],
+        "bounds": {"quick": "colour capping complete; write loop: skeleton input of 11 bytes with one SGR sequence (3 visible bytes, 2 colour digits symbolic), every 2-chunk split, console scripts of <=6 calls with arbitrary short counts and one injected error", "thorough": "same"},
+        "outside": "other input shapes (the run extraction itself is C07); more than two chunks; Interrupted errors (retried by design, would need an unbounded loop)",
+        "assumptions": ["stand-ins for crate::stream::{AsLockedWrite,IsTerminal} (harness/wincon/src/lib.rs) mirror the Windows bounds; crate::adapter and crate::fmt are the real code"],
+    },
+    "C20": {
+        "jobs": jobs_c20,
+        "level": "model_checking",
+        "functions": ["anstyle_parse::Parser::advance and everything below it, built four times: features {utf8} (default), {core}, {core,utf8}, {} ", "ArrayVec-backed osc_raw (core) incl. the is_full early return", "AsciiParser::add (unreachable! shown unreachable on 7-bit input)"],
+        "bounds": {"quick": "per configuration: lock-step runs of <=3 arbitrary 7-bit bytes from Parser::new(); one-step refinement from arbitrary states Ground/Escape/CsiParam/DcsPassthrough/OscString; OSC payload at lengths 1023 and 1024 (concrete filler) followed by two arbitrary 7-bit bytes, BEL and a CSI sequence", "thorough": "more states, runs of 4 bytes, boundary lengths 1022..1024 with and without a completed field"},
+        "outside": "OSC payloads of 1000..1100 bytes fed byte by byte from new() (the step lemma at the boundary lengths stands in for them); payload content other than the filler byte at the boundary (capacity logic does not read it)",
+        "assumptions": ["equality across configurations follows by transitivity through the shared reference model vmodels::vt (fixed-buffer variant: payload truncated at 1024 bytes, separators arriving while full dropped)"],
+    },
     "C07": {
         "jobs": jobs_c07,
         "level": "model_checking",
@@ -275,6 +430,16 @@ REGISTRY = {
         "bounds": {"quick": "every single SGR sequence of <=4 parameter values in every ';'/':' shape (15 shapes) plus the 5-value ';' and ':' shapes, every value a free u16, from every prior style; combined-vs-separate for all code pairs", "thorough": "28 shapes up to 8 values (all extended-colour forms next to other attributes)"},
         "outside": "sequences with more parameter values than the shapes listed; codes the property is silent about (5, 6, 22-29, 59: no assertion); extended colours with missing / out-of-range operands (ill-formed: no assertion); an underline code applied while a different underline kind is in effect (the flag view of the style type and the one-kind terminal view disagree about the result: no assertion); run emission across calls is covered by the run harnesses",
         "assumptions": ["reference interpreter vmodels::sgr with dialect EXTRACT", "parameter lists are built through the verification hook Params::verif_from_parts"],
+    },
+    "C10": {
+        "jobs": jobs_c10,
+        "post": post_c10,
+        "level": "proof",
+        "functions": ["anstyle_lossy::distance (MIR -> SMT-LIB, integers with explicit wrapping)", "anstyle_lossy::palette::Palette::{find_match,get,index,rgb_from_ansi,rgb_from_index}", "anstyle_lossy::{find_xterm_match,rgb_to_xterm,rgb_to_ansi,xterm_to_ansi,xterm_to_rgb,ansi_to_rgb,color_to_rgb,color_to_xterm,color_to_ansi}", "XTERM_COLORS table", "anstyle::RgbColor::{r,g,b} (read off the anstyle crate's MIR)"],
+        "bounds": {"quick": "no bound: K1 over all 2^48 colour pairs; K2 over every query colour, every (tagged) palette and every distance table; K3 over all colours/indices/palettes", "thorough": "same"},
+        "outside": "K2 abstracts the metric to an arbitrary table, so it covers every metric; the composition K1+K2 => nearest-by-red-mean is an argument on paper (stated in DESIGN.md), not a solver query",
+        "trusted": ["rustc nightly MIR printer", "mir2smt translator (validated on 1000 concrete pairs per run against the real function)", "z3 4.8.12 / cvc5 1.0 / z3 5.1.0", "Kani 0.68 stubbing", "CBMC 6.11 + CaDiCaL", "reference xterm generator vmodels::xterm"],
+        "assumptions": ["STUB: anstyle_lossy::distance replaced by a table lookup that also asserts its first argument is the query colour and its second a legitimate candidate", "find_match/find_xterm_match use the palette only through distance(color, candidate) -- enforced by the stub's argument checks and call count"],
     },
     "C12": {
         "jobs": jobs_c12,
